@@ -593,3 +593,170 @@ Section Maps.
       rewrite Wf. exact Hstop.
   Qed.
 End Maps.
+
+(* ---------- the shape of what formatMapLiteral writes ---------- *)
+Fixpoint psegs_of (closing : list token) (multi : list str) (kvs : list (str * list piece))
+  : list token * list (token * list token * list token) :=
+  match multi with
+  | [] => (closing, [])
+  | m :: r =>
+      let '(run, ss) := psegs_of closing r kvs in
+      if item_is_key m then
+        ([], (tok_of_text m, toks_of_pieces (lookup_pieces m kvs), ind_tok (next_not_nl r) ++ run) :: ss)
+      else (toks_of_pieces (raw_item m) ++ ind_tok (next_not_nl r) ++ run, ss)
+  end.
+
+Lemma map_loop_toks lvl closingP kvs multi :
+  toks_of_pieces (map_loop (S lvl) multi kvs ++ closingP) =
+  (let '(lead, ss) := psegs_of (toks_of_pieces closingP) multi kvs in lead ++ pairs_toks ss).
+Proof.
+  induction multi as [|m r IH].
+  - cbn [map_loop app psegs_of pairs_toks flat_map]. rewrite app_nil_r. reflexivity.
+  - cbn [map_loop psegs_of]. destruct (psegs_of (toks_of_pieces closingP) r kvs) as [run ss] eqn:Es.
+    destruct (item_is_key m) eqn:Ek.
+    + unfold pairs_toks. cbn [app flat_map pair_toks]. fold (pairs_toks ss).
+      rewrite <- !app_assoc. cbn [app].
+      change (T m :: T k_colon :: lookup_pieces m kvs ++ (if next_not_nl r then [Sp] else []) ++ map_loop (S lvl) r kvs ++ closingP)
+        with ([T m; T k_colon] ++ lookup_pieces m kvs ++ (if next_not_nl r then [Sp] else []) ++ (map_loop (S lvl) r kvs ++ closingP)).
+      rewrite (toks_app [T m; T k_colon]), (toks_app (lookup_pieces m kvs)), (toks_app (if next_not_nl r then [Sp] else [])), IH.
+      destruct (next_not_nl r); cbn [ind_tok toks_of_pieces flat_map tok_of_piece app]; rewrite <- ?app_assoc; reflexivity.
+    + rewrite <- !app_assoc. rewrite (toks_app (raw_item m)), (toks_app (if next_not_nl r then [Ind (S lvl)] else [])), IH.
+      destruct (next_not_nl r); cbn [ind_tok toks_of_pieces flat_map tok_of_piece app]; rewrite <- ?app_assoc; reflexivity.
+Qed.
+
+Lemma psegs_of_ok closing kvs multi :
+  wsrun closing = true ->
+  Forall (fun m => item_is_key m = true \/ item_ws_ok m = true) multi ->
+  let '(lead, ss) := psegs_of closing multi kvs in
+  wsrun lead = true /\ pseps_ok ss /\
+  (ss <> [] -> match multi with m :: _ => item_is_key m = false -> lead <> [] | [] => True end).
+Proof.
+  intros Hc. induction multi as [|m r IH]; intro Hm.
+  - cbn [psegs_of]. repeat split; auto.
+  - inversion Hm as [|? ? Hm1 Hm2]; subst. cbn [psegs_of]. specialize (IH Hm2).
+    destruct (psegs_of closing r kvs) as [run ss] eqn:Es. destruct IH as (I1 & I2 & I3).
+    destruct (item_is_key m) eqn:Ek.
+    + split; [reflexivity|]. split.
+      * cbn [pseps_ok]. split; [apply wsrun_app; [apply ind_tok_wsrun | exact I1]|]. split; [|exact I2].
+        intros Hne Hsep. apply app_eq_nil in Hsep as [Hi Hrun].
+        destruct r as [|m2 r2]; [cbn [psegs_of] in Es; inversion Es; subst; contradiction|].
+        cbn [next_not_nl] in Hi. destruct (item_is_nl m2) eqn:En; [|discriminate Hi].
+        apply (I3 Hne); [|exact Hrun]. apply item_nl_not_key, En.
+      * intros _ H. discriminate H.
+    + destruct Hm1 as [Hm1|Hm1]; [congruence|]. split; [|split; [exact I2|]].
+      * apply wsrun_app; [apply raw_item_wsrun, Hm1|]. apply wsrun_app; [apply ind_tok_wsrun | exact I1].
+      * intros _ _ H. apply app_eq_nil in H as [H _]. exact (raw_item_nonempty m H).
+Qed.
+
+Lemma psegs_of_keys closing kvs multi :
+  map (fun p => (fst (fst p), snd (fst p))) (snd (psegs_of closing multi kvs))
+  = map (fun k => (tok_of_text k, toks_of_pieces (lookup_pieces k kvs))) (filter item_is_key multi).
+Proof.
+  induction multi as [|m r IH]; [reflexivity|]. cbn [psegs_of filter].
+  destruct (psegs_of closing r kvs) as [run ss]. cbn [snd] in IH. destruct (item_is_key m); cbn [snd map fst]; [f_equal|]; exact IH.
+Qed.
+
+Lemma lookup_pieces_combine k keys : forall (vals : list (list piece)) i v,
+  NoDup keys -> nth_error keys i = Some k -> nth_error vals i = Some v ->
+  lookup_pieces k (combine keys vals) = v.
+Proof.
+  induction keys as [|k0 keys IH]; intros vals i v Hnd Hk Hv; [destruct i; discriminate|].
+  destruct vals as [|v0 vals]; [destruct i; discriminate|]. cbn [combine lookup_pieces].
+  destruct i as [|i]; cbn [nth_error] in Hk, Hv.
+  - inversion Hk; inversion Hv; subst. rewrite str_eqb_refl. reflexivity.
+  - inversion Hnd as [|? ? Hnot Hnd']; subst.
+    destruct (str_eqb k0 k) eqn:Ee.
+    + apply str_eqb_eq in Ee. subst. exfalso. apply Hnot. eapply nth_error_In; eauto.
+    + eapply IH; eauto.
+Qed.
+
+(* identifiers and keywords may be map keys *)
+Definition key_text (k : str) : bool :=
+  let kt := tok_of_text k in
+  toktype_beq (ttype (as_ident kt)) T_IDENT && str_eqb (tlit (as_ident kt)) k && negb (wsish kt)
+  && negb (toktype_beq (ttype kt) T_RCURLY) && negb (toktype_beq (ttype kt) T_EOF).
+
+Lemma key_text_spec k : key_text k = true -> key_tok_ok (tok_of_text k) k.
+Proof.
+  unfold key_text, key_tok_ok. intro H. repeat (apply andb_true_iff in H as [H ?]).
+  apply toktype_beq_eq in H. repeat split; auto.
+  - match goal with H1 : str_eqb _ k = true |- _ => apply str_eqb_eq in H1; exact H1 end.
+  - match goal with H1 : negb (wsish _) = true |- _ => apply negb_true_iff in H1; exact H1 end.
+  - intro Hx. match goal with H1 : negb (toktype_beq _ T_RCURLY) = true |- _ => apply negb_true_iff in H1; rewrite Hx in H1; discriminate H1 end.
+  - intro Hx. match goal with H1 : negb (toktype_beq _ T_EOF) = true |- _ => apply negb_true_iff in H1; rewrite Hx in H1; discriminate H1 end.
+Qed.
+
+Lemma nodup_str_NoDup l : nodup_str l = true -> NoDup l.
+Proof.
+  induction l as [|x t IH]; simpl; intro H; [constructor|]. apply andb_true_iff in H as [H1 H2].
+  constructor; auto. intro Hin. apply mem_str_In in Hin. rewrite Hin in H1. discriminate.
+Qed.
+
+Section MapExpr.
+  Variable E : env.
+  Hypothesis NT : no_tyerr E.
+  Variable fx : fixes.
+
+  (* a map literal whose values round-trip as list items round-trips as a whole *)
+  Theorem map_expr_rt w lvl items keys vals :
+    wf_expr (FMap items keys vals) = true -> forallb key_text keys = true ->
+    Forall (fun e => RT E true (toks_of_pieces (fmt_expr fx (S lvl) e)) (fexpr_tree e)
+                     /\ head_ok (toks_of_pieces (fmt_expr fx (S lvl) e))) vals ->
+    RT E w (toks_of_pieces (fmt_expr fx lvl (FMap items keys vals))) (fexpr_tree (FMap items keys vals)).
+  Proof.
+    intros Hwf Hkt Hvals. cbn [wf_expr] in Hwf. repeat (apply andb_true_iff in Hwf as [Hwf ?]).
+    match goal with Hl : (_ =? _)%nat = true |- _ => apply Nat.eqb_eq in Hl; rename Hl into Hlen end.
+    match goal with Hn : nodup_str keys = true |- _ => apply nodup_str_NoDup in Hn; rename Hn into Hnd end.
+    destruct (list_eq_dec str_eq_dec (filter item_is_key items) keys) as [Hk|]; [|discriminate].
+    cbn [fmt_expr fexpr_tree]. unfold fmt_map.
+    set (multi := format_multiline items).
+    set (kvs := combine keys (map (fmt_expr fx (S lvl)) vals)).
+    assert (Hit' : Forall (fun m => item_is_key m = true \/ item_ws_ok m = true) multi).
+    { apply fm_loop_Forall. apply forallb_Forall in Hwf. eapply Forall_impl; [|exact Hwf]. intros m Hm. simpl in Hm.
+      apply orb_true_iff in Hm as [Hm|Hm]; [left; apply andb_true_iff in Hm; tauto | right; exact Hm]. }
+    assert (Hkeys : filter item_is_key multi = keys).
+    { unfold multi, format_multiline. rewrite fm_loop_filter by apply item_nl_not_key. exact Hk. }
+    destruct multi as [|m0 multi'] eqn:Em.
+    - destruct keys as [|k keys']; [|discriminate Hkeys]. destruct vals; [|discriminate Hlen].
+      change (toks_of_pieces [T k_lcu; T k_rcu]) with (mk T_LCURLY :: [] ++ pairs_toks [] ++ [mk T_RCURLY]).
+      apply (map_literal_rt E NT w [] [] []); [reflexivity | constructor | exact I | constructor].
+    - rewrite <- Em in *. clear Em.
+      set (closingP := if (if fix_br fx then last_is_nl_or_comment multi else last_is_nl multi) then [Ind lvl] else []).
+      assert (Hshape : toks_of_pieces ([T k_lcu] ++ (if first_is_comment multi then [Sp] else []) ++ map_loop (S lvl) multi kvs ++ closingP ++ [T k_rcu])
+                       = mk T_LCURLY :: (ind_tok (first_is_comment multi) ++ fst (psegs_of (toks_of_pieces closingP) multi kvs))
+                         ++ pairs_toks (snd (psegs_of (toks_of_pieces closingP) multi kvs)) ++ [mk T_RCURLY]).
+      { rewrite app_assoc with (l := map_loop (S lvl) multi kvs). rewrite !toks_app.
+        rewrite <- (toks_app (map_loop (S lvl) multi kvs) closingP). rewrite (map_loop_toks lvl closingP kvs multi).
+        destruct (psegs_of (toks_of_pieces closingP) multi kvs) as [lead ss]. cbn [fst snd].
+        destruct (first_is_comment multi); cbn [ind_tok toks_of_pieces flat_map tok_of_piece app]; rewrite <- ?app_assoc; reflexivity. }
+      rewrite Hshape.
+      assert (Hcl : wsrun (toks_of_pieces closingP) = true).
+      { unfold closingP. destruct (if fix_br fx then _ else _); [destruct lvl|]; reflexivity. }
+      pose proof (psegs_of_ok (toks_of_pieces closingP) kvs multi Hcl Hit') as Hok.
+      pose proof (psegs_of_keys (toks_of_pieces closingP) kvs multi) as Hpk. rewrite Hkeys in Hpk.
+      destruct (psegs_of (toks_of_pieces closingP) multi kvs) as [lead ss]. cbn [fst snd] in *.
+      destruct Hok as (O1 & O2 & _).
+      apply (map_literal_rt E NT w _ ss (combine keys (map fexpr_tree vals))).
+      + apply wsrun_app; [apply ind_tok_wsrun | exact O1].
+      + (* the pairs are the keys with their formatted values, in order *)
+        assert (Hgen : forall i k, nth_error keys i = Some k ->
+                  exists e, nth_error vals i = Some e /\ lookup_pieces k kvs = fmt_expr fx (S lvl) e).
+        { intros i k Hi. assert (Hlt : (i < List.length vals)%nat) by (rewrite <- Hlen; apply nth_error_Some; congruence).
+          destruct (nth_error vals i) as [e|] eqn:Ev; [|apply nth_error_None in Ev; lia].
+          exists e. split; [reflexivity|]. unfold kvs. eapply lookup_pieces_combine; eauto. rewrite nth_error_map, Ev. reflexivity. }
+        clearbody kvs. clear - Hpk Hgen Hvals Hkt Hlen. revert ss vals Hpk Hgen Hvals Hlen.
+        induction keys as [|k keys IH]; intros ss vals Hpk Hgen Hvals Hlen.
+        * destruct ss; [constructor | discriminate].
+        * destruct ss as [|[[kt v] sep] ss']; [discriminate|]. cbn [map fst snd] in Hpk. injection Hpk as Hkt1 Hv1 Hrest.
+          destruct vals as [|e vals']; [discriminate|].
+          cbn [forallb] in Hkt. apply andb_true_iff in Hkt as [Hk1 Hk2].
+          inversion Hvals as [|? ? [H1 H2] Hvals']; subst.
+          destruct (Hgen 0%nat k eq_refl) as (e0 & He0 & Hl0). cbn [nth_error] in He0. inversion He0; subst e0.
+          cbn [combine map]. constructor.
+          -- cbn [fst snd]. rewrite Hl0. split; [exact H1|]. split; [exact H2|]. apply key_text_spec, Hk1.
+          -- apply (IH Hk2 ss' vals'); auto.
+             intros i k' Hi. destruct (Hgen (S i) k' Hi) as (e' & He' & Hl'). exists e'. split; auto.
+      + exact O2.
+      + rewrite map_fst_combine by (rewrite map_length; exact Hlen). exact Hnd.
+  Qed.
+End MapExpr.
